@@ -657,6 +657,29 @@ impl CheckedGlyph {
         let path_els = path_els.into_iter().next().unwrap_or_default();
         trace!("'{name}' consistent: components '{components:?}', paths '{path_els}'",);
 
+        // Curve conversion subdivides until segments are small; a coordinate that is not
+        // finite, or so large that differences overflow, makes that recursion endless.
+        // Nothing this far outside the 16-bit range of glyf can be emitted anyway.
+        if let Some(bad) = glyph
+            .sources()
+            .values()
+            .flat_map(|instance| instance.contours.iter())
+            .flat_map(|contour| contour.elements().iter())
+            .flat_map(|el| match el {
+                PathEl::MoveTo(p) | PathEl::LineTo(p) => vec![*p],
+                PathEl::QuadTo(p1, p2) => vec![*p1, *p2],
+                PathEl::CurveTo(p1, p2, p3) => vec![*p1, *p2, *p3],
+                PathEl::ClosePath => vec![],
+            })
+            .flat_map(|p| [p.x, p.y])
+            .find(|v| !v.is_finite() || v.abs() > i32::MAX as f64)
+        {
+            return Err(Error::OutOfBounds {
+                what: format!("'{name}' outline coordinate"),
+                value: format!("{bad:e}"),
+            });
+        }
+
         if !components.is_empty() && !path_els.is_empty() {
             warn!("{name} has component *and* paths; fontir is supposed to fix that for us",);
             return Err(Error::GlyphError(
